@@ -412,12 +412,14 @@ pub fn run(ctx: &Ctx) -> (Spec, Report) {
             files.push(SrcFile { path: format!("{pname}/src/lib.rs"), source: format!("#[typeshare]\n{ren}pub struct Thing {{ pub p{pi}: u32 }}\n#[typeshare]\npub struct Only{} {{ pub q: u32 }}\n", crate::gen::cap(pname)) });
         }
         // every file must be valid Rust on its own: exactly one provider of `Thing` is in scope in each module
-        // (an explicit import, a grouped import, a single glob, or a re-exporting facade); the two modules of the
+        // (an explicit import, a grouped import, a single glob, a re-exporting facade, or an explicit import beside a glob of the other provider); the two modules of the
         // user crate may well pick different providers
         let mut file_src = vec![];
         for n in 1..=2usize {
             let pname = providers[rng.below(np)];
-            let form = match rng.below(5) {
+            let form = match rng.below(6) {
+                // an explicit import next to a glob of another provider of the name: the explicit one is in scope (as in Rust)
+                5 => format!("use {pname}::Thing;\nuse {}::*;", providers[(providers.iter().position(|p| *p == pname).unwrap_or(0) + 1) % np]),
                 0 => format!("use {pname}::Thing;"),
                 1 => format!("use {pname}::*;"),
                 2 => format!("use {pname}::{{Thing, Only{}}};", crate::gen::cap(pname)),
@@ -442,6 +444,22 @@ pub fn run(ctx: &Ctx) -> (Spec, Report) {
             variants.push((format!("order=seed:{sd}"), vec![("TYPESHARE_VERIF_ORDER".to_string(), format!("seed:{sd}"))]));
         }
         jobs.push(Job { tree, lang, multi: true, variants, label: "fresh-processes-ambiguous-names".into(), dirs: vec![] });
+    }
+    // (c'') the fixed core of (c'): two providers of one name under its own name, six consumer crates that import it
+    // explicitly from one and glob-import the other (in both textual orders), fresh processes
+    for &lang in &[LangId::Ts, LangId::Kotlin, LangId::Swift, LangId::Python] {
+        let mut files = vec![
+            SrcFile { path: "left/src/lib.rs".into(), source: "#[typeshare]\npub struct Thing { pub l: u32 }\n#[typeshare]\npub struct OnlyLeft { pub q: u32 }\n".into() },
+            SrcFile { path: "right/src/lib.rs".into(), source: "#[typeshare]\npub struct Thing { pub r: u32 }\n#[typeshare]\npub struct OnlyRight { pub q: u32 }\n".into() },
+        ];
+        for c in 0..6 {
+            let (explicit, glob) = if c % 2 == 0 { ("left", "right") } else { ("right", "left") };
+            let uses = if c % 3 == 0 { format!("use {glob}::*;\nuse {explicit}::Thing;") } else { format!("use {explicit}::Thing;\nuse {glob}::*;") };
+            files.push(SrcFile { path: format!("consumer{c}/src/lib.rs"), source: format!("{uses}\n#[typeshare]\npub struct Consumer{c} {{ pub t: Thing, pub o: Only{} }}\n", crate::gen::cap(glob)) });
+        }
+        let tree = Tree { files, n_source_files: 8, has_consts: false };
+        let variants = (0..ctx.tier.pick(12, 60)).map(|i| (format!("process#{i}"), vec![])).collect();
+        jobs.push(Job { tree, lang, multi: true, variants, label: "fresh-processes-explicit-beside-glob".into(), dirs: vec![] });
     }
     for &lang in ALL_LANGS.iter() {
         let items = gen_items(&mut rng, 14, langs_const.contains(&lang), langs_const.contains(&lang));
